@@ -26,10 +26,18 @@ CONSTANTS StaticCfgs,  \* names of static-context configurations of the evaluati
                        \* namespace, XSD version, strict, compatibility mode).  The behaviour is quantified over
                        \* them (variable cfg, chosen with the context node) and the law does not mention cfg:
                        \* the round trip must not depend on the static context.
+          Alphabets,   \* names of character alphabets of the NAMES (element, attribute, PI target) and of the
+                       \* CONTENT of every node kind (text, attribute value, comment, PI): "ascii", "latin" (a
+                       \* non-ASCII BMP letter), "astral" (a supplementary-plane character).  A character reference
+                       \* is markup only in text and attribute values: in comments, PIs and names the serializer
+                       \* has no way to write a character other than the character itself.  Chosen with the
+                       \* context node (variable alpha); the law does not mention it.  Alphabets other than
+                       \* "ascii" run under the static configuration "default" only.
           PrologMode   \* "all": context node 0 also with comments / PIs BEFORE the root element (children of
                        \* the document node; XDM.tla itself has the root element as only child); "none"
 
 VARIABLES cfg,     \* the static-context configuration
+          alpha,   \* the alphabet of names and content
           prolog,  \* comments / PIs before the root element (context node 0 only)
           prolog2, \* ... as rebuilt by the parse
           phase,   \* "pick" "ser" "text" "parse" "done"
@@ -39,7 +47,7 @@ VARIABLES cfg,     \* the static-context configuration
           toks,    \* the serialized token sequence
           pos,     \* next token of the parse
           parent2, kind2    \* the rebuilt tree (sequences)
-rvars == <<cfg, prolog, prolog2, phase, ctx, cur, stack, toks, pos, parent2, kind2>>
+rvars == <<cfg, alpha, prolog, prolog2, phase, ctx, cur, stack, toks, pos, parent2, kind2>>
 vars == <<parent, kind, rvars>>
 
 Top(s) == s[Len(s)]
@@ -53,12 +61,13 @@ NameOf(k) == IF k \in {"ea", "xa"} THEN "a" ELSE IF k = "eb" THEN "b" ELSE "c"
 Prologs == IF PrologMode = "all" THEN {<<>>, <<"c">>, <<"p">>, <<"c", "p">>} ELSE {<<>>}
 LeafTok(k) == IF k = "c" THEN [k |-> "comment", name |-> ""] ELSE [k |-> "pi", name |-> "p"]
 Init == /\ TreeInit
-        /\ cfg = "" /\ prolog = <<>> /\ prolog2 = <<>>
+        /\ cfg = "" /\ alpha = "" /\ prolog = <<>> /\ prolog2 = <<>>
         /\ phase = "pick" /\ ctx = 0 /\ cur = 0 /\ stack = <<>> /\ toks = <<>> /\ pos = 1
         /\ parent2 = <<>> /\ kind2 = <<>>
 
-Choose(n, c, pr) ==
+Choose(n, c, pr, al) ==
              /\ phase = "pick"
+             /\ al \in Alphabets /\ (al # "ascii" => c = "default") /\ alpha' = al
              /\ (n = 0 \/ IsElem(n))
              /\ c \in StaticCfgs /\ pr \in Prologs /\ (n # 0 => pr = <<>>)
              /\ cfg' = c /\ prolog' = pr
@@ -78,20 +87,20 @@ EmitNode ==
                              ELSE [k |-> "pi", name |-> "p"])
      /\ stack' = IF k \in ElemKinds THEN Append(stack, cur) ELSE stack
   /\ cur' = cur + 1
-  /\ UNCHANGED <<parent, kind, phase, ctx, pos, parent2, kind2, cfg, prolog, prolog2>>
+  /\ UNCHANGED <<parent, kind, phase, ctx, pos, parent2, kind2, cfg, alpha, prolog, prolog2>>
 EmitEnd ==
   /\ phase = "ser" /\ stack # <<>> /\ (IF InWalk THEN ~Attached ELSE TRUE)
   /\ toks' = Append(toks, [k |-> "end", name |-> NameOf(kind[Top(stack)])])
   /\ stack' = Pop(stack)
-  /\ UNCHANGED <<parent, kind, phase, ctx, cur, pos, parent2, kind2, cfg, prolog, prolog2>>
+  /\ UNCHANGED <<parent, kind, phase, ctx, cur, pos, parent2, kind2, cfg, alpha, prolog, prolog2>>
 SerDone ==
   /\ phase = "ser" /\ ~InWalk /\ stack = <<>>
   /\ phase' = "text"
-  /\ UNCHANGED <<parent, kind, ctx, cur, stack, toks, pos, parent2, kind2, cfg, prolog, prolog2>>
+  /\ UNCHANGED <<parent, kind, ctx, cur, stack, toks, pos, parent2, kind2, cfg, alpha, prolog, prolog2>>
 
 StartParse == /\ phase = "text" /\ phase' = "parse" /\ pos' = 1 /\ stack' = <<>> /\ parent2' = <<>> /\ kind2' = <<>>
               /\ prolog2' = <<>>
-              /\ UNCHANGED <<parent, kind, ctx, cur, toks, cfg, prolog>>
+              /\ UNCHANGED <<parent, kind, ctx, cur, toks, cfg, alpha, prolog>>
 KindOfTok(t) == CASE t.k = "start" -> IF t.name = "a" THEN "ea" ELSE "eb"
                   [] t.k = "att" -> IF t.name = "a" THEN "xa" ELSE "xc"
                   [] t.k = "text" -> "t" [] t.k = "comment" -> "c" [] t.k = "pi" -> "p"
@@ -110,12 +119,12 @@ ParseTok ==
           /\ parent2' = Append(parent2, IF stack = <<>> THEN 0 ELSE Top(stack))
           /\ stack' = IF t.k = "start" THEN Append(stack, Len(kind2) + 1) ELSE stack
   /\ pos' = pos + 1
-  /\ UNCHANGED <<parent, kind, phase, ctx, cur, toks, cfg, prolog>>
+  /\ UNCHANGED <<parent, kind, phase, ctx, cur, toks, cfg, alpha, prolog>>
 ParseDone == /\ phase = "parse" /\ pos > Len(toks) /\ stack = <<>>
              /\ phase' = "done"
-             /\ UNCHANGED <<parent, kind, ctx, cur, stack, toks, pos, parent2, kind2, cfg, prolog, prolog2>>
+             /\ UNCHANGED <<parent, kind, ctx, cur, stack, toks, pos, parent2, kind2, cfg, alpha, prolog, prolog2>>
 
-Next == \/ \E n \in 0..N, c \in StaticCfgs, pr \in Prologs : Choose(n, c, pr)
+Next == \/ \E n \in 0..N, c \in StaticCfgs, pr \in Prologs, al \in Alphabets : Choose(n, c, pr, al)
         \/ EmitNode \/ EmitEnd \/ SerDone \/ StartParse \/ ParseTok \/ ParseDone
 Spec == Init /\ [][Next]_vars
 
